@@ -397,9 +397,18 @@ class StmtMixin(object):
                 yield s2, None
 
     def set_item(self, b, i, v, st, line):
-        hook = self.setitem_hook(b, st)
-        if hook is not None:
-            yield from hook(b, i, v, st, line)
+        if isinstance(b, RefV) and b.kind == 'obj' and b.cls is not None:
+            c, m = b.cls.find_method('__setitem__')
+            if m is None:
+                yield st, ExcV('TypeError', 'object does not support item assignment', line)
+                return
+            for s2, r in self.call_repo(None, ('method', b, c, m), [i, v], {}, st, None):
+                yield s2, (r if is_exc(r) else None)
+            return
+        if isinstance(i, ConstV) and type(i.py).__name__ == 'SliceV':
+            if not isinstance(i.py.step, NoneV):
+                raise Unsupported('slice object with a step at line %s' % line)
+            yield from self.set_slice(b, i.py.start, i.py.stop, v, st, line)
             return
         if isinstance(b, RefV) and b.kind == 'rec':
             if isinstance(i, ConstV) and isinstance(i.py, str):
@@ -440,9 +449,20 @@ class StmtMixin(object):
         return None
 
     def set_slice(self, b, lo, hi, v, st, line):
-        hook = self.setitem_hook(b, st)
-        if hook is not None:
-            yield from hook(b, ('slice', lo, hi), v, st, line)
+        if isinstance(lo, UnionV) or isinstance(hi, UnionV):
+            for s1, l1 in self.split(st, lo if lo is not None else NONE):
+                for s2, h1 in self.split(s1, hi if hi is not None else NONE):
+                    yield from self.set_slice(b, l1, h1, v, s2, line)
+            return
+        if isinstance(b, RefV) and b.kind == 'obj' and b.cls is not None:
+            from .calls import SliceV
+            c, m = b.cls.find_method('__setitem__')
+            if m is None:
+                yield st, ExcV('TypeError', 'object does not support item assignment', line)
+                return
+            key = ConstV(SliceV(NONE if lo is None else lo, NONE if hi is None else hi, NONE))
+            for s2, r in self.call_repo(None, ('method', b, c, m), [key, v], {}, st, None):
+                yield s2, (r if is_exc(r) else None)
             return
         if isinstance(b, RefV) and b.kind == 'list':
             cur = st.heap[(b.id, 'val')]
